@@ -1,6 +1,7 @@
 package checks
 
 import (
+	"sort"
 	"fmt"
 	"strings"
 	"time"
@@ -425,6 +426,7 @@ func c02Canon(ds []c02Del, skip map[int]bool) string {
 		}
 		s = append(s, fmt.Sprintf("%s%v", d.WID, ids))
 	}
+	sort.Strings(s) // rows of one batch come in the engine's map order: the order of deliveries is checked elsewhere
 	return strings.Join(s, ";")
 }
 
